@@ -73,7 +73,7 @@ def run(ctx):
     for k in range(nsets):
         S = rng.choice([4, 8, 12])
         nf = rng.randrange(1, 4)
-        names = rng.sample(["a.dat", "sub/b.bin", "sub/deep/c", "d d", "e"], nf)
+        names = rng.sample(["a.dat", "sub/b.bin", "sub/deep/c", "d d", "e", "report..final.txt", "v1..v2/diff.txt", "abcd", "a...b"], nf)
         files = [(n, L.gen_content(rng, rng.choice(["random", "random", "lowent"]), rng.choice([1, S, S + 1, 3 * S + 2]))) for n in names]
         ss = W.SpecSet(files, S)
         nsl = len(ss.slices)
